@@ -439,6 +439,7 @@ package pointindex
 //@     invariant hasKey(ix.hitOnce, level) && !isNil(ix.hitOnce[level]) && hasKey(ix.hitMultiple, level) && !isNil(ix.hitMultiple[level])
 //@     invariant !isNil(ix.hitOnce) && !isNil(ix.hitMultiple)
 //@     decreases len(quadrants) - qi
+//@   ensures !isNil(ix.hitOnce) && !isNil(ix.hitMultiple)
 //@   postlet qs = quadrantsPerLevel
 //@   postlet il = intLine
 //@   ensures[C03,C02,C08] forall(l Int, hasKey(result, l) ==> hasKey(qs, l) && len(result[l]) == len(qs[l]) && len(result[l]) > 0)
